@@ -35,7 +35,7 @@ fn build<T: RealNumber, M: BaseMatrix<T>>(rows: &Rows) -> M {
 }
 
 macro_rules! backend {
-    ($S:ident, $name:expr, $T:ty, $M:ty, $f32:expr) => {
+    ($S:ident, $name:expr, $T:ty, $M:ty, $f32:expr, $via_field:expr) => {
         pub struct $S;
         impl Backend for $S {
             fn name(&self) -> &'static str {
@@ -46,7 +46,15 @@ macro_rules! backend {
             }
             fn fit(&self, rows: &Rows, idx: &[usize]) -> Result<OneHotEncoder, Failed> {
                 let m: $M = build::<$T, $M>(rows);
-                OneHotEncoder::fit(&m, OneHotEncoderParams::from_cat_idx(idx))
+                // the parameters are built by the constructor or by assigning the public field
+                let params = if $via_field {
+                    let mut p = OneHotEncoderParams::from_cat_idx(&[]);
+                    p.col_idx_categorical = Some(idx.to_vec());
+                    p
+                } else {
+                    OneHotEncoderParams::from_cat_idx(idx)
+                };
+                OneHotEncoder::fit(&m, params)
             }
             fn transform(&self, enc: &OneHotEncoder, rows: &Rows) -> Result<Rows, Failed> {
                 let m: $M = build::<$T, $M>(rows);
@@ -56,12 +64,16 @@ macro_rules! backend {
     };
 }
 
-backend!(DenseF64, "DenseMatrix<f64>", f64, DenseMatrix<f64>, false);
-backend!(DenseF32, "DenseMatrix<f32>", f32, DenseMatrix<f32>, true);
-backend!(NdF64, "ndarray::Array2<f64>", f64, ndarray::Array2<f64>, false);
-backend!(NaF32, "nalgebra::DMatrix<f32>", f32, nalgebra::DMatrix<f32>, true);
+backend!(DenseF64, "DenseMatrix<f64>", f64, DenseMatrix<f64>, false, false);
+backend!(DenseF32, "DenseMatrix<f32>", f32, DenseMatrix<f32>, true, false);
+backend!(NdF64, "ndarray::Array2<f64>", f64, ndarray::Array2<f64>, false, false);
+backend!(NaF32, "nalgebra::DMatrix<f32>", f32, nalgebra::DMatrix<f32>, true, false);
+// the same matrix types with the parameter struct filled through its public field
+// `col_idx_categorical` instead of `from_cat_idx` (round 5)
+backend!(DenseF64Field, "DenseMatrix<f64>, params via public field", f64, DenseMatrix<f64>, false, true);
+backend!(NaF32Field, "nalgebra::DMatrix<f32>, params via public field", f32, nalgebra::DMatrix<f32>, true, true);
 
-pub static BACKENDS: [&dyn Backend; 4] = [&DenseF64, &DenseF32, &NdF64, &NaF32];
+pub static BACKENDS: [&dyn Backend; 6] = [&DenseF64, &DenseF32, &NdF64, &NaF32, &DenseF64Field, &NaF32Field];
 
 /// The value a matrix of the backend's element type really holds for `v`.
 pub fn quant(be: &dyn Backend, v: f64) -> f64 {
